@@ -236,7 +236,8 @@ def one(job):
             n["leak"]["on"] = False
         if n.get("has_pdd"):
             n["has_pdd"] = False
-    s["ctl"], s["rules"] = [c for c in s["ctl"]], []
+    # [CONTROLS] has no place for the priority of a simple control (every control read from a file has the default 3)
+    s["ctl"], s["rules"] = [dict(c, prio=3) for c in s["ctl"]], []
     out = {"seed": seed, "unit": unit, "version": version, "features": sorted(netgen.features_of(s))}
     d = tempfile.mkdtemp(prefix="c12_", dir=common.scratch())
     try:
